@@ -39,6 +39,7 @@ TV(ty, s, v) == [ty |-> ty, s |-> s, v |-> v]
 Id(s)  == T("IDENT", s)
 Str(v) == TV("STRING", "\"" \o v \o "\"", v)
 LStr(v) == TV("OPEN_LONG_STRING", "{\"" \o v \o "\"}", v)
+LStrD(v, d) == TV("OPEN_LONG_STRING", "{" \o d \o "\"" \o v \o "\"" \o d \o "}", v)     \* {DELIM"..."DELIM}
 Semi == T("SEMICOLON", ";")   LP == T("LEFT_PAREN", "(")   RP == T("RIGHT_PAREN", ")")
 LB == T("LEFT_BRACE", "{")    RB == T("RIGHT_BRACE", "}")  Comma == T("COMMA", ",")
 Colon == T("COLON", ":")      Dot == T("DOT", ".")         Assign == T("ASSIGN", "=")
@@ -68,7 +69,8 @@ AOp(s) == T(AssignOps[s], s)
 (* abstract syntax: expressions *)
 Ident(v)  == [k |-> "ident", v |-> v]
 String(v) == [k |-> "string", v |-> v]
-LongString(v) == [k |-> "string", v |-> v, long |-> TRUE]   \* `long` is presentational: dropped by Strip
+LongString(v) == [k |-> "string", v |-> v, long |-> TRUE]   \* `long` (and a delimiter) is presentational: dropped by Strip
+LongStringD(v, d) == [k |-> "string", v |-> v, long |-> TRUE, delim |-> d]
 Int(v)    == [k |-> "int", v |-> v]          \* value as a decimal digit string
 Float(v)  == [k |-> "float", v |-> v]        \* shortest decimal representation
 RTime(v)  == [k |-> "rtime", v |-> v]
@@ -110,7 +112,8 @@ RenderArgs(args) == IF args = <<>> THEN <<>>
                     ELSE Render(args[1]) \o <<Comma>> \o RenderArgs(Tail(args))
 Render(t) ==
   CASE t.k = "ident"   -> <<Id(t.v)>>
-    [] t.k = "string"  -> IF "long" \in DOMAIN t THEN <<LStr(t.v)>> ELSE <<Str(t.v)>>
+    [] t.k = "string"  -> IF "delim" \in DOMAIN t THEN <<LStrD(t.v, t.delim)>>
+                          ELSE IF "long" \in DOMAIN t THEN <<LStr(t.v)>> ELSE <<Str(t.v)>>
     [] t.k = "int"     -> <<TV("INT", t.v, t.v)>>
     [] t.k = "float"   -> <<TV("FLOAT", t.v, t.v)>>
     [] t.k = "rtime"   -> <<TV("RTIME", t.v, t.v)>>
